@@ -46,7 +46,8 @@ RULE = (
 ASSUMPTIONS = [
     'no symbolic links anywhere in the scratch tree (not in the statement); POSIX host with a case-sensitive file '
     'system (directories whose names differ from the root only in letter case are different directories)',
-    'file and folder names are ASCII without NUL; no file name in the tree contains a backslash',
+    'file and folder names are ASCII without NUL; some in-root names contain backslashes on disk (walk_folder reports '
+    'them with / instead); a handle so named may open that very in-root file or be rejected, never leak',
     'a query containing a backslash has two admissible readings (srctools: separator; POSIX: name character); '
     'RootEscapeError is demanded/forbidden only when both readings agree, leaking is forbidden under both',
     'a path with exactly two leading slashes is implementation-defined in POSIX: either verdict is accepted when '
@@ -79,12 +80,15 @@ ROOT_FORMS = ['abs', 'abs_slash', 'abs_dot', 'abs_dotdot', 'abs_dblslash_mid', '
 IN_ROOT_FILES = [
     'a.txt', 'secret.txt', 'sub/b.txt', 'sub/secret.txt', 'sub/deep/c.txt',
     '@r/inner.txt', '@r2/x.txt', '@r2/secret.txt', 'sub/@r/d.txt',
+    # names that contain a backslash ON DISK (legal on POSIX).  walk_folder() converts '\\' to '/' in the names it
+    # reports, so the first three get handle names that point out of the root ('../notes.txt', '.../<root>2/notes.txt').
+    '..\\notes.txt', 'sub/..\\..\\@r2\\notes.txt', 'dir\\..\\..\\@r2/notes.txt', 'a\\b.txt', 'sub\\b.txt',
 ]
-SIBLING_FILES = ['secret.txt', 'sub/b.txt', 'a.txt']
+SIBLING_FILES = ['secret.txt', 'sub/b.txt', 'a.txt', 'notes.txt']
 
 # Query segment symbols.
 SEG_DOTS = ['..', '..', '..', '.', '']
-SEG_INSIDE = ['a.txt', 'secret.txt', 'sub', 'b.txt', 'deep', 'c.txt', '@r', 'inner.txt', 'x.txt', 'd.txt']
+SEG_INSIDE = ['a.txt', 'secret.txt', 'sub', 'b.txt', 'deep', 'c.txt', '@r', 'inner.txt', 'x.txt', 'd.txt', 'notes.txt', 'dir']
 SEG_SIB = ['@r2', '@r_old', '@r.bak', 'other', '@r2.txt', '@rl', '@ru', '@rs', '@rl2']
 SEG_ABOVE = ['@base', 'base.txt', 'top.txt', 'missing', '@basev']
 SEG_ABS = ['@ABS_ROOT', '@ABS_BASE', '@ABS_SIB2', '@ABS_SIBOLD', '@ABS_SCRATCH', '@ABS_SLASH']
@@ -211,6 +215,9 @@ class Tree:
         self.base = self.scratch + '/' + desc['base']
         self.root = self.base + '/' + self.root_name
         self.tokens: dict[str, bytes] = {}      # absolute real path -> content
+        # in-root files whose on-disk name contains a backslash: name as walk_folder() reports it -> real path
+        self.alt: dict[str, str] = {}
+        self.alt_escaping = False
         self.sym = {
             '@r': self.root_name, '@r2': self.root_name + '2', '@r_old': self.root_name + '_old',
             '@r.bak': self.root_name + '.bak', '@r2.txt': self.root_name + '2.txt', '@base': desc['base'],
@@ -230,7 +237,7 @@ class Tree:
                               if n != rn]
 
     def expand(self, symbolic: str) -> str:
-        return '/'.join(self.sym.get(part, part) for part in symbolic.split('/'))
+        return '/'.join('\\'.join(self.sym.get(x, x) for x in part.split('\\')) for part in symbolic.split('/'))
 
     def put(self, path: str) -> None:
         os.makedirs(os.path.dirname(path), exist_ok=True)
@@ -242,11 +249,18 @@ class Tree:
     def populate_root(self, desc) -> None:
         os.makedirs(self.root, exist_ok=True)
         for rel in desc['files']:
-            self.put(self.root + '/' + self.expand(rel))
+            disk = self.expand(rel)
+            self.put(self.root + '/' + disk)
+            if '\\' in disk:
+                shown = disk.replace('\\', '/')
+                self.alt[shown] = self.root + '/' + disk
+                if not self.inside(lexical(self.root + '/' + shown)):
+                    self.alt_escaping = True
 
     def populate_outside(self) -> None:
         self.put(self.scratch + '/top.txt')
         self.put(self.base + '/base.txt')
+        self.put(self.base + '/notes.txt')
         self.put(self.base + '/' + self.root_name + '2.txt')
         for sib in dict.fromkeys([self.root_name + s for s in SIB_SUFFIXES] + ['other'] + self.case_siblings):
             for rel in SIBLING_FILES:
@@ -280,7 +294,8 @@ class Reading:
         full = rel_or_abs if rel_or_abs.startswith('/') else tree.root + '/' + rel_or_abs
         self.real = lexical(full)
         rp = os.path.realpath(full)
-        if rp != self.real:
+        # (outside the scratch tree the host may have symlinks; such a target is outside the root in any case)
+        if rp != self.real and (self.real + '/').startswith(tree.scratch + '/'):
             raise HarnessError(f'harness resolver disagrees with realpath: {full!r} -> {self.real!r} vs {rp!r}')
         self.inside = tree.inside(self.real)
 
@@ -466,17 +481,21 @@ def run_ops(ctx, tree: Tree, fs, q: str, readings: list[Reading], via: str, ops,
             ctx.check(isinstance(f, File), 'type', f'fs[{q!r}] returned {f!r}')
             j.not_rejected('getitem', f'returned File {f.path!r}')
             j.exists_true('getitem')
-            # the File object must open the in-root file
-            try:
-                fobj = f.open_bin()
-            except RootEscapeError:
-                j.rejected('getitem.open_bin')
-            except OSError:
-                pass
-            else:
-                with fobj:
-                    j.opened('getitem.open_bin', str(getattr(fobj, 'name', '')), fobj.read())
-                ctx.label('inside_hit:getitem')
+            # the File object must open the in-root file, whichever way it is opened
+            for hop, fn in (('File.open_bin()', f.open_bin), ('fs.open_bin(File)', lambda: fs.open_bin(f)),
+                            ('fs.open_str(File)', lambda: fs.open_str(f)), ('File.open_str()', f.open_str)):
+                try:
+                    fobj = fn()
+                except RootEscapeError:
+                    j.rejected('getitem.' + hop)
+                except OSError:
+                    pass
+                else:
+                    with fobj:
+                        hname = str(getattr(fobj, 'name', ''))
+                        hdata = fobj.read()
+                    j.opened('getitem.' + hop, hname, hdata.encode('ascii') if isinstance(hdata, str) else hdata)
+                    ctx.label('inside_hit:getitem')
 
     for op in ('walk_folder', 'walk_folder_repeat'):
         if op not in ops:
@@ -490,35 +509,17 @@ def run_ops(ctx, tree: Tree, fs, q: str, readings: list[Reading], via: str, ops,
                 n += 1
                 if n == 1:
                     j.not_rejected(op, f'yielded {f.path!r}')
-                if via_chain:
-                    # Names listed by a chain are relative to the member's subfolder (C19 judges them); here the
-                    # file actually opened is what counts.
-                    if n > 40:
-                        continue
-                    with f.open_bin() as fobj:
-                        real = lexical(str(fobj.name))
-                        data = fobj.read()
-                    if not ctx.check(tree.inside(real), 'walk_file_outside',
-                                     f'{op}: yielded File {f.path!r} which opens {real!r}, outside the root; '
-                                     f'{j.describe()}', **j.facts(op)):
-                        break
-                else:
+                if not via_chain:
                     real = lexical(tree.root + '/' + f.path)
-                    if not ctx.check(tree.inside(real), 'walk_file_outside',
+                    # (a name that only looks foreign because an on-disk backslash was converted is judged when opened)
+                    if not ctx.check(tree.inside(real) or f.path in tree.alt, 'walk_file_outside',
                                      f'{op}: yielded File {f.path!r} = {real!r}, outside the root; {j.describe()}',
                                      **j.facts(op)):
                         break
-                    if n > 40:
-                        continue
-                    with f.open_bin() as fobj:
-                        data = fobj.read()
-                want = tree.tokens.get(real)
-                if data != want:
-                    leak = [p for p, t in tree.tokens.items() if t == data and not tree.inside(p)]
-                    ctx.fail('outside_data' if leak else 'walk_file_wrong_bytes',
-                             f'{op}: File {f.path!r} opened to {data!r}, expected {want!r} ({real}); leak={leak!r}; '
-                             f'{j.describe()}', **j.facts(op))
-                    break
+                if n <= 40:
+                    routes = [('fs.open_bin(File)', lambda f=f: fs.open_bin(f)), ('fs.open_str(File)', lambda f=f: fs.open_str(f)),
+                              ('File.open_bin()', f.open_bin), ('File.open_str()', f.open_str)]
+                    judge_handle(ctx, tree, f, routes, f'{j.via} {op}({q!r})', chain=via_chain)
         except RootEscapeError:
             if n == 0:
                 j.rejected(op)
@@ -531,6 +532,59 @@ def run_ops(ctx, tree: Tree, fs, q: str, readings: list[Reading], via: str, ops,
                 ctx.label('inside_hit:' + op)
         finally:
             it.close()
+
+
+def judge_handle(ctx, tree: Tree, f, routes, via: str, chain: bool = False) -> None:
+    """Open a File handle (from a walk, or from a twin filesystem) through the filesystem under test.
+
+    The handle's name is what counts.  If it denotes a path outside the root the open must raise RootEscapeError -
+    except that a name produced by walk_folder() from an on-disk name with backslashes may also open that very
+    in-root file.  Data from outside the root is never acceptable.  Handles listed by a chain carry names relative
+    to the member's subfolder (C19 judges those); for them the file actually opened is judged."""
+    from srctools.filesys import RootEscapeError
+    name = f.path
+    b_real, b_inside, alt = None, None, None
+    if not chain:
+        rd = Reading(tree, name, 'handle-name')
+        b_real, b_inside = rd.real, rd.inside
+        alt = tree.alt.get(name)
+        if alt is not None:
+            ctx.label('disk_name:backslash_dotdot' if not b_inside else 'disk_name:backslash')
+    elif tree.alt_escaping:
+        ctx.label('disk_name:backslash_dotdot')
+    for label, fn in routes:
+        facts = {'op': label, 'via': via, 'query': name, 'backslash': False}
+        where = f'{label} for handle {name!r} ({via}); root={tree.root!r} denotes={b_real!r} on-disk-name={alt!r}'
+        try:
+            fobj = fn()
+        except RootEscapeError:
+            ok = tree.alt_escaping if chain else (not b_inside or rd.double_slash)
+            ctx.check(ok, 'inside_rejected', f'RootEscapeError from {where}, which lies inside the root', **facts)
+            ctx.label('handle:rejected')
+            continue
+        except OSError as exc:
+            if not chain and not b_inside and alt is None:
+                ctx.fail('outside_not_rejected', f'{where}: outside the root but {type(exc).__name__}, not RootEscapeError',
+                         **facts)
+            continue
+        with fobj:
+            opened = lexical(str(getattr(fobj, 'name', '')) or '/')
+            data = fobj.read()
+        if isinstance(data, str):
+            data = data.encode('ascii')
+        leak = [p for p, t in tree.tokens.items() if t == data and not tree.inside(p)]
+        if leak or not tree.inside(opened):
+            ctx.fail('outside_data', f'{where}: returned {data!r} from {opened!r}; leaked file {leak!r}', **facts)
+            continue
+        if chain:
+            want = [tree.tokens.get(opened)]
+        else:
+            if not b_inside and alt is None:
+                ctx.fail('outside_not_rejected', f'{where}: outside the root but the open succeeded ({data!r})', **facts)
+                continue
+            want = [tree.tokens[x] for x in ((b_real if b_inside else None), alt) if x in tree.tokens]
+        ctx.check(data in want, 'walk_file_wrong_bytes', f'{where}: returned {data!r}, expected one of {want!r}', **facts)
+        ctx.label('handle:opened')
 
 
 def run_twin(fs, q: str, ops) -> None:
@@ -646,6 +700,7 @@ def execute_generic(desc, ctx, mode: str) -> None:
             ctx.label('prefix:' + desc['prefix'])
             # the twins are asked through the same kind of chain, so that the member sees identical strings
             twins = [FileSystemChain((t, prefix)) for t in twins]
+        loose_twins = [] if mode == 'chain' else [t for t, k in zip(twins, twin_kinds) if k.endswith('unconstrained')]
 
         ops = {
             'lookup': ('in', 'getitem', 'open_bin', 'open_str'),
@@ -690,6 +745,31 @@ def execute_generic(desc, ctx, mode: str) -> None:
             if twin_mode == 'after':
                 for t in twins:
                     run_twin(t, q, ops)
+            # a File handle made by an unconstrained twin, opened through the constrained filesystem
+            for t in loose_twins:
+                handles = []
+                try:
+                    if mode == 'lookup':
+                        handles.append(t[q])
+                    else:
+                        wit = t.walk_folder(q)
+                        try:
+                            handles.extend(itertools.islice(wit, 3))
+                        finally:
+                            wit.close()
+                except (OSError, ValueError):
+                    pass
+                for tf in handles:
+                    if not (lexical(tf.path if tf.path.startswith('/') else tree.root + '/' + tf.path) + '/').startswith(
+                            tree.scratch + '/'):
+                        continue        # never touch host files outside the scratch tree
+                    ctx.label('twin_handle')
+                    judge_handle(ctx, tree, tf, [('fs.open_bin(twin File)', lambda tf=tf: fs.open_bin(tf)),
+                                                 ('fs.open_str(twin File)', lambda tf=tf: fs.open_str(tf))],
+                                 f'handle from unconstrained twin for {q!r}')
+        if mode == 'lookup':
+            # every sub-check opens the handles of a walk over the whole root
+            run_ops(ctx, tree, fs, '', readings_direct(tree, ''), 'raw', ('walk_folder',))
         ctx.nontrivial(any_outside)
     finally:
         tree.remove()
@@ -707,16 +787,16 @@ def execute_chain(desc, ctx):
     execute_generic(desc, ctx, 'chain')
 
 
-_ROUTES = ('construct:before_root_exists', 'construct:before_root', 'construct:before_tree', 'construct:after',
+_ROUTES = ('disk_name:backslash_dotdot', 'handle:rejected', 'handle:opened', 'construct:before_root_exists', 'construct:before_root', 'construct:before_tree', 'construct:after',
            'escape:case_variant_sibling', 'escape:case_variant_ancestor', 'twin:unconstrained_first', 'twin:none', 'twin:constrained2', 'twin:respelled', 'route:dotdot:sibling_ext', 'route:abs:sibling_ext', 'route:dotdot:ancestor', 'route:dotdot:base_entry',
            'route:dotdot:sibling_other', 'route:with_backslash', 'target:inside', 'target:outside')
 
 SUBCHECKS = [
     Sub('lookup', execute_lookup, strategy=case_strategy(False), quick=1200, thorough=100000, floor=100,
-        must_hit=_ROUTES + ('inside_hit:in', 'inside_hit:getitem', 'inside_hit:open_bin', 'inside_hit:open_str',
+        must_hit=_ROUTES + ('twin_handle', 'inside_hit:in', 'inside_hit:getitem', 'inside_hit:open_bin', 'inside_hit:open_str',
                             'target:readings_differ', 'root_form:rel_slash', 'root_form:abs_slash')),
     Sub('walk', execute_walk, strategy=case_strategy(False), quick=1200, thorough=100000, floor=100,
-        must_hit=_ROUTES + ('inside_hit:walk_folder',)),
+        must_hit=_ROUTES + ('twin_handle', 'inside_hit:walk_folder',)),
     Sub('chain', execute_chain, strategy=case_strategy(True), quick=1000, thorough=80000, floor=100,
         must_hit=_ROUTES + ('inside_hit:walk_folder', 'inside_hit:walk_folder_repeat', 'inside_hit:open_bin',
                             'prefix:sub', 'prefix:../@r2')),
